@@ -1,5 +1,5 @@
 /-
-  Helper lemmas for C11 (`checked_gamma_lr`, series branch, src/function/gamma.rs:310–324): the power
+  Helper lemmas for C11 (`checked_gamma_lr`, series branch, src/function/gamma.rs:307–321): the power
   series  `Σ_{n≥0} x^n / ((a+1)…(a+n))`  as a sequence over ℝ.
 
   * `term a x n`  — the n-th term, defined by the loop's OWN recurrence `c ← c · (x / (a + n))`;
